@@ -81,7 +81,7 @@ def gen_bundle(gen, rng, n_refs=None, nrows=None, with_onset=None, valid_cells=T
         chosen = [e for e in entries if rng.random() < 0.8] or entries[:1]
         for e in chosen:
             where = rng.random()
-            groups = [g for g, _ in annot.walk(e) if g["t"] == "group"]
+            groups = [g for g, _ in annot.walk(e) if g["t"] == "group" and g["role"] == "group"]
             if where < 0.35 and groups:
                 g = rng.choice(groups)
                 g["kids"].insert(rng.randrange(0, len(g["kids"]) + 1), copy.deepcopy(ref))
